@@ -703,4 +703,200 @@ Proof.
   unfold req_res in *. destruct (o_fnmode o =? 2); [exact Q1|]. destruct Q1 as [a0 [rest0 [r0 [Q2 [Q3 Q4]]]]].
   exists a0, rest0, r0. repeat split; try assumption. eapply resolves_ext; [apply (ext_labels _ _ B2)|exact Q3].
 Qed.
+
+Lemma existsb_map_fst {A B C} (g : A -> bool) (h : B -> C) (l : list (A * B)) :
+  existsb (fun x => g (fst x)) (map (fun mf => (fst mf, h (snd mf))) l) = existsb (fun x => g (fst x)) l.
+Proof. induction l as [|x l IH]; simpl; [reflexivity|]. rewrite IH. reflexivity. Qed.
+
+Lemma func_unroll heap sd fi f fn pf d :
+  (forall a nd, nth_error heap a = Some nd -> node_ok heap nd) ->
+  get_file p fi = Some f -> func_res heap (fi, f, fn) pf -> elab_func true 64 p o f sd fn = Some d -> unroll_func heap sd pf = d.
+Proof.
+  intros Hcl Hf [A [B [C [D [E F]]]]]. unfold elab_func, unroll_func.
+  (* request side *)
+  assert (Hq : forall X, (if o_fnmode o =? 2 then Some None
+                          else match elab_request true 64 p o f sd fn with Some (d0, b) => Some (Some (d0, b)) | None => None end) = Some X ->
+               option_map (unroll_wrap heap sd) (pf_req pf) = option_map fst X /\ match X with Some (_, b) => b | None => false end = false).
+  { intros X. unfold req_res in E. destruct (o_fnmode o =? 2).
+    - intros H. inversion H. subst. rewrite E. split; reflexivity.
+    - destruct E as [a [rest [r [E1 [E2 E3]]]]]. unfold elab_request. rewrite E1.
+      destruct (elab_type true 64 p o f sd 0 0 (f_type a)) as [d0|] eqn:Ee; [|discriminate].
+      intros H. inversion H. subst. rewrite E3. simpl. unfold unroll_wrap. simpl.
+      rewrite (unroll_elab heap Hcl _ _ _ _ _ _ _ _ _ Hf E2 Ee). split; [reflexivity|].
+      (* no request base: EnableThriftBase is off *)
+      pose proof (unroll_elab heap Hcl _ _ _ _ _ _ _ _ _ Hf E2 Ee) as Hu. subst d0.
+      destruct r; try (destruct sd; reflexivity). destruct sd; [reflexivity|]. simpl.
+      destruct (nth_error heap a0) as [nd|] eqn:En; [|reflexivity]. simpl.
+      destruct (Hcl _ _ En) as [tf [s [_ [_ [_ [Hfo _]]]]]]. rewrite existsb_map_fst.
+      induction Hfo as [|fd mr l l' [Hm _] _ IH]; [reflexivity|]. simpl. rewrite IH, orb_false_r. rewrite Hm.
+      unfold elab_meta_code. simpl. rewrite Hbase. reflexivity. }
+  assert (Hs : forall Y, (if o_fnmode o =? 1 then Some None
+                          else match elab_response true 64 p o f sd fn with Some d0 => Some (Some d0) | None => None end) = Some Y ->
+               option_map (unroll_wrap heap sd) (pf_resp pf) = Y).
+  { intros Y. unfold resp_res in F. destruct (o_fnmode o =? 1).
+    - intros H. inversion H. rewrite F. reflexivity.
+    - destruct F as [r [F1 F2]]. unfold elab_response.
+      destruct (elab_type true 64 p o f sd 0 1 (fn_ret fn)) as [d0|] eqn:Ee; [|discriminate].
+      pose proof (unroll_elab heap Hcl _ _ _ _ _ _ _ _ _ Hf F1 Ee) as Hu.
+      destruct (fn_throws fn) as [|e thr].
+      + intros H. inversion H. rewrite F2. simpl. unfold unroll_wrap. simpl. rewrite Hu. reflexivity.
+      + destruct F2 as [re [F3 F4]]. destruct (elab_type true 64 p o f sd 0 2 (f_type e)) as [de|] eqn:Ee2; [|discriminate].
+        intros H. inversion H. rewrite F4. simpl. unfold unroll_wrap. simpl. rewrite Hu.
+        rewrite (unroll_elab heap Hcl _ _ _ _ _ _ _ _ _ Hf F3 Ee2). reflexivity. }
+  destruct (if o_fnmode o =? 2 then Some None else _) as [X|] eqn:EX.
+  - destruct (if o_fnmode o =? 1 then Some None else _) as [Y|] eqn:EY.
+    + destruct (fn_args fn) eqn:Ea; [contradiction|]. intros H. inversion H.
+      destruct (Hq X eq_refl) as [Q1 Q2]. rewrite (Hs Y eq_refl), Q1, Q2, A, B, C. reflexivity.
+    + destruct (fn_args fn); discriminate.
+  - destruct (fn_args fn); discriminate.
+Qed.
+
+(* ------------------------------------------------------------------ the function list *)
+
+Definition tc_ok (st : pstate) (tc : list (Z * nat)) : Prop := forall fi c, assocZ fi tc = Some c -> cache_has st c fi.
+
+Definition item_ok (x : Z * ifile * ifunc) : Prop := let '(fi, f, fn) := x in get_file p fi = Some f /\ fn_scoped f fn.
+
+Lemma pfunctions_spec : forall l st tc names stF pfs,
+  Forall item_ok l -> INV st -> alldone st -> tc_ok st tc ->
+  pfunctions p o st tc names l = Some (stF, pfs) ->
+  INV stF /\ ext st stF /\ alldone stF /\ Forall2 (func_res (ps_heap stF)) l pfs.
+Proof.
+  induction l as [|[[fi f] fn] l IH]; intros st tc names stF pfs Hl Hinv Hd Htc; simpl.
+  - intros H. inversion H. subst. split; [exact Hinv|]. split; [apply ext_refl|]. split; [exact Hd|constructor].
+  - inversion Hl as [|x l0 Hx Hl']. subst. simpl in Hx. destruct Hx as [Hf Hsc].
+    assert (Htcache : forall X, tree_cache st tc fi = X -> let '(st1, tc1, cid) := X in
+                      INV st1 /\ ext st st1 /\ alldone st1 /\ tc_ok st1 tc1 /\ cache_has st1 cid fi).
+    { intros [[st1 tc1] cid]. unfold tree_cache. destruct (assocZ fi tc) as [c|] eqn:Ea.
+      - intros H. inversion H. subst. split; [exact Hinv|]. split; [apply ext_refl|]. split; [exact Hd|]. split; [exact Htc|apply Htc; exact Ea].
+      - unfold new_cache. intros H. inversion H. subst.
+        pose proof (new_cache_ext st fi) as He. unfold new_cache in He. simpl in He.
+        split; [apply (new_cache_inv st fi Hinv)|]. split; [exact He|]. split; [exact (ext_alldone _ _ He Hd)|]. split.
+        + intros fi' c'. simpl. destruct (fi' =? fi) eqn:E.
+          * apply Z.eqb_eq in E. subst. intros H1. inversion H1. apply (new_cache_has st fi).
+          * intros H1. eapply cache_has_ext; [exact He|]. apply Htc. exact H1.
+        + apply (new_cache_has st fi). }
+    destruct (tree_cache st tc fi) as [[st1 tc1] cid] eqn:Etc. specialize (Htcache _ eq_refl). simpl in Htcache.
+    destruct Htcache as [A1 [B1 [D1 [T1 C1]]]].
+    destruct (pfunction p o st1 fi f cid names fn) as [[st2 pf]|] eqn:Epf; [|discriminate].
+    destruct (pfunction_spec _ _ _ _ _ _ _ _ Hf Hsc A1 D1 C1 Epf) as [A2 [B2 [D2 R2]]].
+    destruct (pfunctions p o st2 tc1 (fn_name fn :: names) l) as [[st3 pfs']|] eqn:Er; [|discriminate].
+    intros H. inversion H. subst.
+    destruct (IH st2 tc1 (fn_name fn :: names) stF pfs' Hl' A2 D2) as [A3 [B3 [D3 R3]]]; [|exact Er|].
+    { intros fi' c' Hc'. eapply cache_has_ext; [exact B2|]. apply T1. exact Hc'. }
+    split; [exact A3|]. split; [exact (ext_trans _ _ _ (ext_trans _ _ _ B1 B2) B3)|]. split; [exact D3|].
+    constructor; [|exact R3]. eapply func_res_ext; [apply (ext_labels _ _ B3)|exact R2].
+Qed.
+
+Lemma funcs_unroll heap sd :
+  (forall a nd, nth_error heap a = Some nd -> node_ok heap nd) ->
+  forall l pfs ds, Forall item_ok l -> Forall2 (func_res heap) l pfs ->
+  elab_funcs true 64 p o sd (map (fun x => (snd (fst x), snd x)) l) = Some ds -> map (unroll_func heap sd) pfs = ds.
+Proof.
+  intros Hcl. induction l as [|[[fi f] fn] l IH]; intros pfs ds Hl Hr; inversion Hr; subst; simpl.
+  - intros H. inversion H. reflexivity.
+  - inversion Hl as [|x l0 Hx Hl']. subst. simpl in Hx. destruct Hx as [Hf _].
+    destruct (elab_func true 64 p o f sd fn) as [d|] eqn:Ed; [|discriminate].
+    destruct (elab_funcs true 64 p o sd (map (fun x => (snd (fst x), snd x)) l)) as [ds'|] eqn:Er; [|discriminate].
+    intros H. inversion H. subst. f_equal; [eapply func_unroll; eauto|]. apply IH; auto.
+Qed.
+
+(* getAllFuncs as transcribed = the specification's function list, and every item is a function of a file of the program *)
+Lemma find_svc_in n l s : find_svc n l = Some s -> In s l.
+Proof. induction l as [|x l IH]; simpl; [discriminate|]. destruct (name_eqb n (sv_name x)); [intros H; inversion H; left; reflexivity|intros H; right; auto]. Qed.
+
+Lemma all_funcs_ix_strip : forall fuel fi f s,
+  map (fun x => (snd (fst x), snd x)) (all_funcs_ix fuel p fi f s) = all_funcs fuel true p f s.
+Proof.
+  induction fuel as [|fuel IH]; intros fi f s; [reflexivity|]. simpl. rewrite map_app, map_map. simpl. f_equal.
+  destruct (sv_extends s) as [|c ext]; [reflexivity|]. destruct (split_last_dot (c :: ext)) as [pkg sn].
+  destruct pkg as [|c0 pkg].
+  - destruct (find_svc sn (fl_svcs f)); [apply IH|reflexivity].
+  - destruct (get_ref p f (c0 :: pkg)) as [[i f']|]; [|reflexivity]. destruct (find_svc sn (fl_svcs f')); [apply IH|reflexivity].
+Qed.
+
+Lemma all_funcs_ix_ok : forall fuel fi f s, get_file p fi = Some f -> In s (fl_svcs f) -> Forall item_ok (all_funcs_ix fuel p fi f s).
+Proof.
+  induction fuel as [|fuel IH]; intros fi f s Hf Hs; [constructor|]. simpl. apply Forall_app. split.
+  - apply Forall_forall. intros x Hx. apply in_map_iff in Hx. destruct Hx as [fn [<- Hfn]]. split; [exact Hf|].
+    pose proof (scoped_in f (get_file_in _ _ Hf)) as Hsc. unfold scoped_file in Hsc. apply andb_true_iff in Hsc. destruct Hsc as [_ Hsc].
+    rewrite forallb_forall in Hsc. specialize (Hsc s Hs). rewrite forallb_forall in Hsc. specialize (Hsc fn Hfn).
+    apply andb_true_iff in Hsc. destruct Hsc as [Hsc H3]. apply andb_true_iff in Hsc. destruct Hsc as [H1 H2].
+    rewrite forallb_forall in H2, H3. repeat split; auto.
+  - destruct (sv_extends s) as [|c ext]; [constructor|]. destruct (split_last_dot (c :: ext)) as [pkg sn].
+    destruct pkg as [|c0 pkg].
+    + destruct (find_svc sn (fl_svcs f)) eqn:E; [|constructor]. apply IH; [exact Hf|eapply find_svc_in; eauto].
+    + destruct (get_ref p f (c0 :: pkg)) as [[i f']|] eqn:Er; [|constructor].
+      destruct (find_svc sn (fl_svcs f')) eqn:E; [|constructor]. apply IH; [apply (get_ref_file _ _ _ _ Er)|eapply find_svc_in; eauto].
+Qed.
+
+Lemma selected_in main sn svcs : selected_services o main = Some (sn, svcs) -> forall s, In s svcs -> In s (fl_svcs main).
+Proof.
+  unfold selected_services. destruct (fl_svcs main) as [|s0 l] eqn:E; [discriminate|].
+  destruct (o_svcname o) as [|c0 nm0].
+  - destruct (o_svcmode o =? 0).
+    + destruct (rev (s0 :: l)) eqn:Er; [discriminate|]. intros H. inversion H. subst. intros s1 [<-|[]].
+      apply in_rev. rewrite Er. left. reflexivity.
+    + destruct (o_svcmode o =? 1); intros H; inversion H; subst; [intros s1 [<-|[]]; left; reflexivity|auto].
+  - destruct (find_svc (c0 :: nm0) (s0 :: l)) eqn:Ef; [|discriminate]. intros H. inversion H. subst. intros s1 [<-|[]]. eapply find_svc_in; eauto.
+Qed.
+
+(* ------------------------------------------------------------------ the theorem *)
+
+Theorem parse_refines_elab_sec st sn pfs sd e :
+  parse p o = Some (st, sn, pfs) -> elab true true sd p o = Some e -> unroll_service sd (parse p o) = Some e.
+Proof.
+  intros Hp He. rewrite Hp. unfold parse in Hp. unfold elab in He. destruct p as [|main rest] eqn:Eprog; [discriminate|]. rewrite <- Eprog in *.
+  destruct (selected_services o main) as [[sn0 svcs]|] eqn:Es; [|discriminate].
+  destruct (pfunctions p o (PState [] []) [] [] (flat_map (all_funcs_ix 16 p 0 main) svcs)) as [[st0 pfs0]|] eqn:Epf; [|discriminate].
+  inversion Hp. subst st0 sn0 pfs0. clear Hp.
+  destruct (has_dup _); [discriminate|].
+  destruct (elab_funcs true 64 p o sd (flat_map (all_funcs 16 true p main) svcs)) as [ds|] eqn:Ed; [|discriminate].
+  inversion He. subst e. clear He.
+  assert (Hmain : get_file p 0 = Some main) by (rewrite Eprog; reflexivity).
+  assert (Hitems : Forall item_ok (flat_map (all_funcs_ix 16 p 0 main) svcs)).
+  { apply Forall_forall. intros x Hx. apply in_flat_map in Hx. destruct Hx as [s [Hs Hx]].
+    pose proof (all_funcs_ix_ok 16 0 main s Hmain (selected_in _ _ _ Es s Hs)) as H. rewrite Forall_forall in H. apply H. exact Hx. }
+  destruct (pfunctions_spec _ (PState [] []) [] [] st pfs Hitems) as [A [B [D R]]]; [| | |exact Epf|].
+  { split; [intros a nd H; destruct a; discriminate|intros cid fi c H; destruct cid; discriminate]. }
+  { intros a nd H. destruct a; discriminate. }
+  { intros fi c H. discriminate. }
+  assert (Hcl : forall a nd, nth_error (ps_heap st) a = Some nd -> node_ok (ps_heap st) nd).
+  { intros a nd H. destruct A as [A _]. apply (A a nd H). apply (D a nd H). }
+  simpl. f_equal. f_equal.
+  apply (funcs_unroll _ sd Hcl _ _ _ Hitems R).
+  rewrite <- Ed. f_equal. clear. induction svcs as [|s svcs IH]; [reflexivity|]. simpl. rewrite map_app, IH, all_funcs_ix_strip. reflexivity.
+Qed.
+
+(* a cache hit returns the descriptor of the type the key denotes in the tree the cache belongs to (seeded change C14-1) *)
+Theorem cache_hit_sound_sec st cid fi f c n e target :
+  INV st -> nth_error (ps_caches st) cid = Some (fi, c) -> get_file p fi = Some f -> names_ok p f (TNamed n) = true ->
+  cache_find c n = Some e -> ce_target e = target ->
+  exists nd ti tn, nth_error (ps_heap st) (ce_addr e) = Some nd /\ struct_of fi f n = Some (ti, tn) /\
+                   pn_file nd = ti /\ pn_sname nd = tn /\ pn_target nd = target /\ pn_tname nd = n.
+Proof.
+  intros [_ Hc] Hn Hf Hok Hfind Ht. specialize (Hc _ _ _ Hn). destruct (cache_find_key _ _ _ Hfind) as [Hin Hkey].
+  rewrite Forall_forall in Hc. destruct (Hc e Hin) as [nd [f0 [H1 [H2 [H3 [H4 H5]]]]]]. rewrite Hf in H4. inversion H4. subst f0.
+  destruct H5 as [H5|[pkg [tn [Hs [Hne Hr]]]]].
+  - exists nd, (pn_file nd), (pn_sname nd). rewrite <- Hkey. repeat split; auto; congruence.
+  - exfalso. simpl in Hok. rewrite <- Hkey, Hs in Hok. simpl in Hok. destruct pkg; [contradiction|]. rewrite Hr in Hok. discriminate.
+Qed.
+
+(* ... and every state the compiler goes through satisfies INV: in particular the final one *)
+Theorem parse_inv_sec st sn pfs : parse p o = Some (st, sn, pfs) -> INV st /\ alldone st.
+Proof.
+  intros Hp. unfold parse in Hp. destruct p as [|main rest] eqn:Eprog; [discriminate|]. rewrite <- Eprog in *.
+  destruct (selected_services o main) as [[sn0 svcs]|] eqn:Es; [|discriminate].
+  destruct (pfunctions p o (PState [] []) [] [] (flat_map (all_funcs_ix 16 p 0 main) svcs)) as [[st0 pfs0]|] eqn:Epf; [|discriminate].
+  inversion Hp. subst st0 sn0 pfs0. clear Hp.
+  assert (Hmain : get_file p 0 = Some main) by (rewrite Eprog; reflexivity).
+  assert (Hitems : Forall item_ok (flat_map (all_funcs_ix 16 p 0 main) svcs)).
+  { apply Forall_forall. intros x Hx. apply in_flat_map in Hx. destruct Hx as [s [Hs Hx]].
+    pose proof (all_funcs_ix_ok 16 0 main s Hmain (selected_in _ _ _ Es s Hs)) as H. rewrite Forall_forall in H. apply H. exact Hx. }
+  destruct (pfunctions_spec _ (PState [] []) [] [] st pfs Hitems) as [A [B [D R]]]; [| | |exact Epf|].
+  { split; [intros a nd H; destruct a; discriminate|intros cid fi c H; destruct cid; discriminate]. }
+  { intros a nd H. destruct a; discriminate. }
+  { intros fi c H. discriminate. }
+  split; assumption.
+Qed.
 End Refine.
